@@ -829,3 +829,32 @@ def run_hinted(ast, hints, conn, catalog=None):
             except Exception:  # pylint: disable=broad-except
                 pass
         conn.commit()
+
+
+# ------------------------------------------------------------------------------------------------ TLC output
+def printed_tuples(stdout, head):
+    """PrintT(<<"HEAD", ...>>) values of a TLC run as python lists; unlike tlc.Result.tuples this also reads the
+    values TLC wraps over several lines (long verdict tuples)."""
+    from harness import tlc
+    out, mark, pos = [], f'<<"{head}"', 0
+    while True:
+        start = stdout.find(mark, pos)
+        if start < 0:
+            return out
+        depth, i, quoted = 0, start, False
+        while i < len(stdout):
+            ch = stdout[i]
+            if ch == '"':
+                quoted = not quoted
+            elif not quoted and stdout.startswith('<<', i):
+                depth += 1
+                i += 1
+            elif not quoted and stdout.startswith('>>', i):
+                depth -= 1
+                i += 1
+                if depth == 0:
+                    break
+            i += 1
+        text = ' '.join(stdout[start:i + 1].split())
+        out.append(tlc.parse_tla(text)[1:])
+        pos = i + 1
